@@ -294,6 +294,15 @@ func (s *Store) Bin(op Op, a, b *Term) *Term {
 		if b.IsConst() && b.K == 1 {
 			return a
 		}
+		if a.IsConst() && a.K <= 16 && !b.IsConst() {
+			// c / x for a small constant c, without a division: the number of k in 1..c with x <= c/k
+			// (x == 0 keeps the SMT-LIB value, all ones)
+			sum := s.BV(w, 0)
+			for k := uint64(1); k <= a.K; k++ {
+				sum = s.Bin(OAdd, sum, s.Ite(s.Cmp(OULe, b, s.BV(w, a.K/k)), s.BV(w, 1), s.BV(w, 0)))
+			}
+			return s.Ite(s.Eq(b, s.BV(w, 0)), s.BV(w, mask(w)), sum)
+		}
 	}
 	switch op {
 	case OAdd, OMul, OBAnd, OBOr, OBXor:
